@@ -103,6 +103,23 @@ def _gen_case(rng, tier):
     if ctype:
         case['ctype'] = ctype
         case['via'] = 'wsgi'
+    if case['via'] == 'wsgi':
+        # what else the application does with the request around reading the body (order and stage matter
+        # for caches: forms before body, a hook that looked at the form first, a lazily running handler,
+        # the media type corrected after a first look)
+        small = L is not None and L <= B and (case.get('M') is None or L <= case['M']) and not ctype
+        prog = {}
+        r = rng.random()
+        if small and r < 0.12:
+            prog['pre'] = ['forms_quiet']
+        elif small and r < 0.2:
+            prog['before'] = ['forms_quiet']
+        if rng.random() < 0.12:
+            prog['post'] = ['retype']
+        if rng.random() < 0.1:
+            prog['lazy'] = True
+        if prog:
+            case['prog'] = prog
     return case
 
 
@@ -166,8 +183,11 @@ def _run_case(case):
         log('direct')
     else:
         M = case.get('M')
+        prog = case.get('prog') or {}
+        touch = tuple(prog.get('pre', [])) + ('body', 'input', 'copy_body') + tuple(prog.get('post', []))
+        stages = {k: prog[k] for k in ('before', 'lazy') if k in prog}
         o = body_request(S, case['sched'], B=B, M=M, cl=L, ctype=case.get('ctype'), tempmode=case['temp'],
-                         touch=('body', 'input', 'copy_body'),
+                         touch=touch, stages=stages,
                          retry=(3 if case.get('retry') else 0))
         stream = o.stream
         status = o.resp.code
@@ -202,6 +222,11 @@ def _run_case(case):
                       got=hx(body[:64]), expected=hx(expected[:64]))
         if body2 != body:
             violation(res, 'C04:reaccess-differs', 'second access of Request.body returned different bytes')
+        if case['via'] != 'direct' and 'body_after_retype' in o.seen and status == 200 \
+                and o.seen['body_after_retype'] != expected:
+            violation(res, 'C04:body-differs-after-retype',
+                      f'after request["CONTENT_TYPE"] was changed, Request.body has {len(o.seen["body_after_retype"])} '
+                      f'bytes, the body has {len(expected)}')
         for k2 in ('copy_body', 'copy_body_partial'):
             if case['via'] != 'direct' and status == 200 and o.seen.get(k2) != expected:
                 violation(res, 'C04:copy-body-differs',
@@ -263,6 +288,14 @@ def _shrink_candidates(case):
         c = dict(case)
         c.pop('M')
         yield c
+    if case.get('prog'):
+        c = dict(case)
+        c.pop('prog')
+        yield c
+        for k in list(case['prog']):
+            c = dict(case)
+            c['prog'] = {k2: v for k2, v in case['prog'].items() if k2 != k}
+            yield c
     if case['L'] is not None:
         for v in shrink.int_cands(case['L'], 0, prefer=[len(S)]):
             yield shrink.with_key(case, 'L', v)
@@ -282,7 +315,8 @@ TWIN_SHARE = 0.06
 
 
 def gen_case(rng, tier):
-    return _twin.maybe_wrap(rng, _gen_case(rng, tier), TWIN_SHARE, ok=lambda c: len(c['S']) <= 12000)
+    return _twin.maybe_wrap(rng, _gen_case(rng, tier), TWIN_SHARE,
+                            ok=lambda c: len(c['S']) <= 12000 and not (c.get('prog') or {}).get('before'))
 
 
 def run_case(case):
